@@ -351,3 +351,81 @@ def untuple_records(tree: ast.Module, modname: str) -> int:
     if count:
         ast.fix_missing_locations(tree)
     return count
+
+
+# --------------------------------------------------------------------------- new module-level constants
+_CONST_NODES = (ast.Constant, ast.Name, ast.Attribute, ast.BinOp, ast.UnaryOp, ast.Tuple, ast.List, ast.Set, ast.Dict, ast.JoinedStr,
+                ast.FormattedValue, ast.Load, ast.operator, ast.unaryop, ast.Subscript)
+
+
+def _is_const_expr(e: ast.AST) -> bool:
+    for x in ast.walk(e):
+        if isinstance(x, _CONST_NODES):
+            continue
+        if isinstance(x, ast.Call) and isinstance(x.func, ast.Attribute) and isinstance(x.func.value, ast.Name) and x.func.value.id == "re" \
+                and x.func.attr == "compile" and not x.keywords:
+            continue
+        if isinstance(x, ast.Call) and isinstance(x.func, ast.Name) and x.func.id in ("frozenset", "tuple", "set") and len(x.args) <= 1 and not x.keywords:
+            continue
+        return False
+    return True
+
+
+def inline_new_constants(tree: ast.Module, modname: str) -> int:
+    """`Extract constant`: a module-level name the reference tree does not know, bound once to a constant expression (numbers,
+    strings, flag combinations such as `os.O_WRONLY | os.O_CREAT`, tuples of type constants, `re.compile(<pattern>)`), is
+    substituted back into the functions that read it."""
+    from .relocate import shapes
+    ref = shapes().get(modname)
+    if not ref or "<globals>" not in ref:
+        return 0
+    known = set(ref["<globals>"]["bag"])
+    stores: Dict[str, int] = {}
+    vals: Dict[str, ast.AST] = {}
+    for st in tree.body:
+        if isinstance(st, ast.Assign):
+            for t in st.targets:
+                for x in ast.walk(t):
+                    if isinstance(x, ast.Name):
+                        stores[x.id] = stores.get(x.id, 0) + 1
+            if len(st.targets) == 1 and isinstance(st.targets[0], ast.Name):
+                vals[st.targets[0].id] = st.value
+        elif isinstance(st, (ast.AnnAssign, ast.AugAssign)) and isinstance(st.target, ast.Name):
+            stores[st.target.id] = stores.get(st.target.id, 0) + (2 if isinstance(st, ast.AugAssign) else 1)
+            if isinstance(st, ast.AnnAssign) and st.value is not None:
+                vals[st.target.id] = st.value
+    for n in ast.walk(tree):
+        if isinstance(n, ast.Global):
+            for nm in n.names:
+                stores[nm] = stores.get(nm, 0) + 2
+    consts = {k: v for k, v in vals.items() if k not in known and stores.get(k) == 1 and _is_const_expr(v)}
+    # constants may refer to each other
+    for _ in range(3):
+        for k, v in list(consts.items()):
+            m = {x.id for x in ast.walk(v) if isinstance(x, ast.Name)} & set(consts)
+            if m:
+                class S(ast.NodeTransformer):
+                    def visit_Name(self, n):
+                        return copy.deepcopy(consts[n.id]) if n.id in consts and n.id != k and isinstance(n.ctx, ast.Load) else n
+                consts[k] = S().visit(copy.deepcopy(v))
+    if not consts:
+        return 0
+    count = 0
+    for fn in [n for n in ast.walk(tree) if isinstance(n, (ast.FunctionDef, ast.AsyncFunctionDef))]:
+        local = {x.id for x in ast.walk(fn) if isinstance(x, ast.Name) and isinstance(x.ctx, (ast.Store, ast.Del))} | \
+                {a.arg for x in ast.walk(fn) if isinstance(x, ast.arguments) for a in x.posonlyargs + x.args + x.kwonlyargs + ([x.vararg] if x.vararg else []) + ([x.kwarg] if x.kwarg else [])}
+        use = {x.id for x in ast.walk(fn) if isinstance(x, ast.Name) and isinstance(x.ctx, ast.Load) and x.id in consts} - local
+        if not use:
+            continue
+
+        class R(ast.NodeTransformer):
+            def visit_Name(self, n):
+                if n.id in use and isinstance(n.ctx, ast.Load):
+                    return ast.copy_location(copy.deepcopy(consts[n.id]), n)
+                return n
+        for i, st in enumerate(fn.body):
+            fn.body[i] = R().visit(st)
+        count += len(use)
+    if count:
+        ast.fix_missing_locations(tree)
+    return count
